@@ -47,6 +47,8 @@ def case_strategy(draw, tier="quick"):
         op["agg"] = draw(st.sampled_from(EXP))
         if op["agg"] in ("var", "std") and op["col"] == "xy":
             op["col"] = "x"
+        if op["agg"] in ("var", "std"):
+            op["ddof"] = draw(st.sampled_from([1, 1, 0, 2]))
     else:
         k = draw(st.sampled_from(["com", "span", "alpha", "halflife"]))
         op["ewm"] = {k: draw(st.sampled_from({"com": [0.5, 1.0, 3.0], "span": [1.0, 2.0, 5.0],
@@ -71,7 +73,8 @@ def stream_op(sdf, op):
         return getattr(sel(sdf, op["col"]), op["agg"])()
     if f == "expanding":
         e = sel(sdf.expanding(), op["col"])
-        return e.size if op["agg"] == "size" else getattr(e, op["agg"])()
+        kw = {"ddof": op["ddof"]} if "ddof" in op else {}
+        return e.size if op["agg"] == "size" else getattr(e, op["agg"])(**kw)
     return sel(sdf.ewm(**op["ewm"]), op["col"]).mean()
 
 
@@ -89,7 +92,8 @@ def pandas_full(df, op):
 def pandas_prefix(df, op):
     s = sel(df, op["col"])
     if op["fam"] == "expanding":
-        return s.size if op["agg"] == "size" else getattr(s, op["agg"])()
+        kw = {"ddof": op["ddof"]} if "ddof" in op else {}
+        return s.size if op["agg"] == "size" else getattr(s, op["agg"])(**kw)
     m = s.ewm(**op["ewm"]).mean()
     return m.iloc[-1]
 
